@@ -42,6 +42,7 @@ type wsOp struct {
 	Op string `json:"op"`
 	A  int    `json:"a,omitempty"`
 	B  int    `json:"b,omitempty"`
+	V  int    `json:"v,omitempty"`
 }
 
 type wsCase struct {
@@ -387,6 +388,9 @@ func checkWorkspaceFor(c wsCase, only string) error {
 					ns.csigs = append(ns.csigs, &c2)
 				}
 				slots = append(slots, ns)
+				if e := wsNoSharedMaps(step, ns, slots, fail); e != nil {
+					return e
+				}
 				stats.Class("ws/decode")
 				break
 			}
@@ -425,6 +429,9 @@ func checkWorkspaceFor(c wsCase, only string) error {
 			for _, cs := range lastCs {
 				c2 := cs
 				dst.csigs = append(dst.csigs, &c2)
+			}
+			if e := wsNoSharedMaps(step, dst, slots, fail); e != nil {
+				return e
 			}
 			stats.Class("ws/decode-into-used-variable")
 		case "edit-protected", "edit-payload", "edit-unprotected":
@@ -508,7 +515,7 @@ func checkWorkspaceFor(c wsCase, only string) error {
 			stats.Class("ws/" + op.Op)
 		case "countersign":
 			s := pick(op.A)
-			if s == nil || !s.signed {
+			if s == nil || !s.signed || *s.m.payload() == nil {
 				continue
 			}
 			abbrev := op.B%2 == 1
@@ -726,6 +733,18 @@ func checkWorkspaceFor(c wsCase, only string) error {
 				}
 				return err
 			}
+		case "decode-detached-into":
+			src, dst := pick(op.A), pick(op.B)
+			if src == nil || src.last == nil || dst == nil || dst.spec.Kind != src.spec.Kind {
+				continue
+			}
+			nextContent++
+			if err := wsDecodeDetachedInto(step, src, dst, slots, nextContent, fail); err != nil {
+				if err == errStopHistory {
+					return nil
+				}
+				return err
+			}
 		case "sign-refused":
 			s := pick(op.A)
 			if s == nil || s.signed || len(s.ss) == 0 {
@@ -783,6 +802,10 @@ func genWorkspace(t *rapid.T) wsCase {
 	o.Hdr.PadBoundary, o.Hdr.PadHuge = false, false
 	c := wsCase{}
 	n := rapid.IntRange(1, 3).Draw(t, "nspecs")
+	directed := rapid.IntRange(0, 2).Draw(t, "directed-prelude") == 0
+	if directed && n < 2 {
+		n = 2
+	}
 	for i := 0; i < n; i++ {
 		if rapid.IntRange(0, 2).Draw(t, "cheap-alg") != 0 {
 			a := rapid.SampledFrom([]int64{refcose.AlgEdDSA, refcose.AlgES256}).Draw(t, "alg")
@@ -791,7 +814,7 @@ func genWorkspace(t *rapid.T) wsCase {
 			o.FixedAlg = nil
 		}
 		spec := gen.Msg(t, o)
-		if i > 0 && rapid.Bool().Draw(t, "same-kind") {
+		if i > 0 && (rapid.Bool().Draw(t, "same-kind") || (directed && i == 1)) {
 			spec.Kind = c.Specs[0].Kind
 			if spec.Kind != refcose.KSign && len(spec.Sigs) > 1 {
 				spec.Sigs = spec.Sigs[:1]
@@ -806,17 +829,33 @@ func genWorkspace(t *rapid.T) wsCase {
 		// a template and two copies, each signed on its own
 		c.Ops = append(c.Ops, wsOp{Op: "new"}, wsOp{Op: "copy-template"}, wsOp{Op: "copy-template"}, wsOp{Op: "sign", A: 1}, wsOp{Op: "sign", A: 2})
 	}
+	if directed {
+		// two different messages of one kind arrive one after the other in the same variable; the first is set aside
+		// by value before the second arrives; then something the decoder must refuse arrives in that variable
+		c.Ops = append(c.Ops, wsOp{Op: "new"}, wsOp{Op: "sign"}, wsOp{Op: "encode"}, wsOp{Op: "new", A: 1}, wsOp{Op: "sign", A: 1}, wsOp{Op: "encode", A: 1},
+			wsOp{Op: "decode", A: 0}, wsOp{Op: "copy-redecode", A: 1, B: 2},
+			wsOp{Op: "decode-refused", A: 0, B: 2, V: rapid.IntRange(0, 7).Draw(t, "refused-variant")})
+		if rapid.Bool().Draw(t, "then-detached") {
+			c.Ops = append(c.Ops, wsOp{Op: "decode-detached-into", A: 0, B: 2})
+		}
+		return wsFinish(t, c)
+	}
 	c.Ops = append(c.Ops, wsOp{Op: "new"}, wsOp{Op: "sign"})
 	if len(c.Specs) >= 2 && rapid.IntRange(0, 2).Draw(t, "prelude") == 0 {
 		// two signed and encoded objects, each decoded once: objects 2 and 3 are decoded siblings
 		c.Ops = append(c.Ops, wsOp{Op: "encode"}, wsOp{Op: "new", A: 1}, wsOp{Op: "sign", A: 1}, wsOp{Op: "encode", A: 1}, wsOp{Op: "decode", A: 0}, wsOp{Op: "decode", A: 1})
 	}
-	names := []string{"new", "sign", "sign", "encode", "encode", "decode", "decode", "decode-into", "decode-into", "edit-protected", "edit-payload", "edit-unprotected",
-		"tamper", "tamper", "re-sign", "scribble", "churn", "encode", "decode", "copy-redecode", "copy-redecode", "copy-template", "copy-template", "countersign", "countersign", "countersign", "detach-countersign", "detach-countersign", "detach-signature",
-		"verify-refused", "verify-refused", "decode-refused", "decode-refused", "sign-refused", "countersign-refused", "new"}
+	return wsFinish(t, c)
+}
+
+var wsOpNames = []string{"new", "sign", "sign", "encode", "encode", "decode", "decode", "decode-into", "decode-into", "edit-protected", "edit-payload", "edit-unprotected",
+	"tamper", "tamper", "re-sign", "scribble", "churn", "encode", "decode", "copy-redecode", "copy-redecode", "copy-template", "copy-template", "countersign", "countersign", "countersign", "detach-countersign", "detach-countersign", "detach-signature",
+	"verify-refused", "verify-refused", "decode-refused", "decode-refused", "sign-refused", "countersign-refused", "new", "decode-detached-into"}
+
+func wsFinish(t *rapid.T, c wsCase) wsCase {
 	k := rapid.IntRange(4, 24).Draw(t, "nops")
 	for i := 0; i < k; i++ {
-		c.Ops = append(c.Ops, wsOp{Op: rapid.SampledFrom(names).Draw(t, "op"), A: rapid.IntRange(0, 7).Draw(t, "a"), B: rapid.IntRange(0, 7).Draw(t, "b")})
+		c.Ops = append(c.Ops, wsOp{Op: rapid.SampledFrom(wsOpNames).Draw(t, "op"), A: rapid.IntRange(0, 7).Draw(t, "a"), B: rapid.IntRange(0, 7).Draw(t, "b"), V: rapid.IntRange(0, 7).Draw(t, "v")})
 	}
 	return c
 }
